@@ -155,7 +155,7 @@ def leaf_eq(it, a, b):
             return "int"
         if isinstance(v, float):
             return "float"
-        if isinstance(v, (str, SStr)) or type(v).__name__ == "ISOText":
+        if isinstance(v, (str, SStr)) or type(v).__name__ in ("ISOText", "IPText"):
             return "str"
         if isinstance(v, (bytes, bytearray, SBytes)):
             return "bin"
@@ -174,6 +174,12 @@ def leaf_eq(it, a, b):
     if ka == "int":
         return it.zint(a) == it.zint(b), "integer differs"
     if ka == "str":
+        if type(a).__name__ == "IPText" or type(b).__name__ == "IPText":
+            from pyvc.models.ip import same as _same_ip
+
+            if type(a) is not type(b):
+                return False, "address text differs"
+            return _same_ip(a.ip, b.ip), "address text differs"
         if type(a).__name__ == "ISOText" or type(b).__name__ == "ISOText":
             if type(a) is not type(b) or a.sep != b.sep:
                 return False, "ISO text differs"
